@@ -41,7 +41,7 @@ ASSUMPTIONS = [
     "with factors= the output length must be a rounding of length*factor (ties not judged)",
 ]
 BUDGET = {"quick": {"soft_s": 100}, "thorough": {"soft_s": 560}}
-MIN_EVALUATIONS = {"quick": 2000, "thorough": 60000}
+MIN_EVALUATIONS = {"quick": 5000, "thorough": 100000}
 REQUIRED_COUNTERS = [
     "eval:bin_block_values", "eval:bin_origin", "eval:bin_sampling", "eval:bin_count_conservation", "eval:bin_block_centre",
     "eval:rs_mean", "eval:rs_centre", "eval:rs_extent", "eval:rs_linear", "eval:rs_identity", "eval:rs_updown", "eval:rs_spectrum_band",
@@ -56,7 +56,7 @@ TOL_RS = {"64": 1e-10, "32": 2e-4}  # float32 resample content: measured 6.4e-7
 
 
 def plan(tier, seed):
-    reps = 12 if tier == "quick" else 600
+    reps = 30 if tier == "quick" else 600
     specs = []
     for r in range(reps):
         for (kind, w), ndim, dk in itertools.product(KINDS, (1, 2, 3, 4), DKINDS):
